@@ -51,7 +51,22 @@ fn gen_family(rng: &mut Rng, tables: &[Table]) -> Family {
     let extra_sql = if extra { format!(" AND x.b > {}", k) } else { String::new() };
     let extra_ok = |r: &Vec<V>| !extra || vint(&r[2]).map_or(false, |b| b > k);
     let int = |i: i64| Canon::Int(i as i128);
-    match rng.below(4) {
+    match rng.below(5) {
+        4 => {
+            // correlated NOT IN: for each x the subquery ranges over the y rows with y.b = x.b
+            let members = vec![
+                format!("SELECT x.id FROM {} WHERE x.{} NOT IN (SELECT y.{} FROM {} WHERE y.b = x.b){}", fx, cx, cy, fy, extra_sql),
+                format!("SELECT x.id FROM {} WHERE NOT EXISTS (SELECT 1 FROM {} WHERE y.b = x.b AND (y.{} = x.{} OR y.{} IS NULL OR x.{} IS NULL)){}", fx, fy, cy, cx, cy, cx, extra_sql),
+                format!("SELECT x.id FROM {} WHERE NOT (x.{} IN (SELECT y.{} FROM {} WHERE y.b = x.b)){}", fx, cx, cy, fy, extra_sql),
+            ];
+            let expected = tx
+                .rows
+                .iter()
+                .filter(|rx| ty.rows.iter().filter(|ry| eq3(&rx[2], &ry[2]) == Some(true)).all(|ry| eq3(&rx[ix], &ry[iy]) == Some(false)) && extra_ok(rx))
+                .map(|rx| vec![int(vint(&rx[0]).unwrap())])
+                .collect();
+            Family { name: "anti-join-not-in-correlated", members, expected }
+        }
         0 => {
             // inner equi-join written five ways
             let cond = format!("x.{} = y.{}", cx, cy);
